@@ -27,7 +27,8 @@ End Collapse.
     (fun x : st R * option (idx R) => inv (fst x) /\ forall j, snd x = Some j -> valid (fst x) j)
     (fun (x : st R * option (idx R)) (i : idx R) => valid (fst x) i)
     (fun (x : st R * option (idx R)) (v : val R) => dom (fst x) v)
-    (fun x y : st R * option (idx R) => sim (fst x) (fst y) /\ snd x = snd y).
+    (fun x y : st R * option (idx R) => sim (fst x) (fst y) /\ snd x = snd y)
+    (fun l : list (st R * option (idx R)) => mergeable (map fst l)).
 
 (** C11: what a push does, for an arbitrary comparison [veq]. *)
 Lemma collapse_push_spec R veq `{RegionOK R} (s : st R) (last : option (idx R)) (v : val R) :
@@ -86,8 +87,8 @@ Proof.
   - intros [s last] [Hs Hl]. cbn in *. split.
     + split; [apply clear_ok; assumption|discriminate].
     + split; [apply clear_ok; assumption|reflexivity].
-  - intros l Hl. cbn. split; [|discriminate].
-    apply merge_inv. rewrite Forall_forall in *. intros y Hy. apply in_map_iff in Hy.
+  - intros l Hl Hm. cbn. split; [|discriminate].
+    apply merge_inv; [|exact Hm]. rewrite Forall_forall in *. intros y Hy. apply in_map_iff in Hy.
     destruct Hy as (x & <- & Hx). apply (Hl x Hx).
   - intros [s l]. cbn. split; [apply sim_refl|reflexivity].
   - intros [s l] [t m] [H1 H2]. cbn in *. split; [apply sim_sym; assumption|congruence].
